@@ -69,7 +69,7 @@ func (e Elem) toModel() *model.Element {
 
 // Write is one mutating call.
 type Write struct {
-	Kind  string `json:"kind"` // addGraph addVertex addEdge bulkAdd
+	Kind  string `json:"kind"` // addGraph addVertex addEdge bulkAdd addIndex (Elems[0]: Label = label, ID = field)
 	Graph []byte `json:"graph"`
 	// addVertex/addEdge: exactly one element; bulkAdd: the last element is the hostile
 	// one, elements before it are benign companions
@@ -105,6 +105,9 @@ func (e Elem) String() string {
 }
 
 func (w Write) String() string {
+	if w.Kind == "addIndex" && len(w.Elems) == 1 {
+		return fmt.Sprintf("addIndex(graph=%s, label=%s, field=%s) hostile=%v", clip(q(w.Graph), 80), clip(q(w.Elems[0].Label), 80), clip(q(w.Elems[0].ID), 80), w.Hostile)
+	}
 	parts := []string{}
 	for _, e := range w.Elems {
 		parts = append(parts, e.String())
@@ -314,11 +317,11 @@ func componentValue(w Write, comp string) []byte {
 	switch comp {
 	case "graph":
 		return w.Graph
-	case "vertex-id", "edge-id":
+	case "vertex-id", "edge-id", "index-field":
 		if t != nil {
 			return t.ID
 		}
-	case "label":
+	case "label", "index-label":
 		if t != nil {
 			return t.Label
 		}
@@ -354,7 +357,7 @@ func cause(w Write) string {
 		attacked[comp] = true
 	}
 	// fixed order, so that among equally specific features the key components win
-	for _, comp := range []string{"graph", "vertex-id", "edge-id", "label", "from", "to", "prop-name", "value"} {
+	for _, comp := range []string{"graph", "vertex-id", "edge-id", "label", "from", "to", "index-label", "index-field", "prop-name", "value"} {
 		if !attacked[comp] {
 			continue
 		}
@@ -362,7 +365,7 @@ func cause(w Write) string {
 		var r int
 		switch comp {
 		case "value":
-			name, r = "value:"+valueKind(w.target().Data), len(featureRank)+1
+			name, r = "value:"+valueKind(w.target().Data), 200
 		case "prop-name":
 			f := "plain"
 			rr := len(featureRank)
@@ -372,10 +375,21 @@ func cause(w Write) string {
 					f, rr = kf, rankOf(kf)
 				}
 			}
-			name, r = f+"-in-prop-name", rr
+			// property names live inside the stored value, not in keys: any special
+			// identifier component is the likelier cause
+			name, r = f+"-in-prop-name", 100+rr
+			if f == "plain" {
+				r = 1000
+			}
 		default:
 			f := features(comp, componentValue(w, comp))[0]
-			name, r = f+"-in-"+comp, rankOf(f)
+			name, r = f+"-in-"+map[string]string{"from": "endpoint", "to": "endpoint", "graph": "graph-name"}[comp], rankOf(f)
+			if comp != "from" && comp != "to" && comp != "graph" {
+				name = f + "-in-" + comp
+			}
+			if f == "plain" {
+				r = 1000
+			}
 			if f == "label-named-label" {
 				name = f
 			}
@@ -392,6 +406,34 @@ func cause(w Write) string {
 
 func signature(w Write, symptom string) string {
 	c := cause(w)
+	if symptom == "rejected-but-graph-changed" {
+		// a refused call that changed something: attribute it to the feature that makes
+		// the store fail after it started writing (0x00 alone is never refused)
+		for _, comp := range []string{"label", "vertex-id", "edge-id", "from", "to"} {
+			for _, h := range w.Hostile {
+				if h != comp {
+					continue
+				}
+				fs := features(comp, componentValue(w, comp))
+				for _, f := range fs {
+					if f == "label-named-label" {
+						return f + ":" + symptom
+					}
+				}
+			}
+		}
+		for _, comp := range []string{"vertex-id", "edge-id", "label", "from", "to"} {
+			for _, h := range w.Hostile {
+				if h == comp && !utf8.Valid(componentValue(w, comp)) {
+					name := map[string]string{"from": "endpoint", "to": "endpoint"}[comp]
+					if name == "" {
+						name = comp
+					}
+					return "invalid-utf8-in-" + name + ":" + symptom
+				}
+			}
+		}
+	}
 	if strings.HasPrefix(c, "value:") {
 		if symptom == "not-read-back-verbatim" {
 			symptom = "not-roundtripped"
@@ -429,6 +471,9 @@ type backend interface {
 	addGraph(name string) (accepted bool, detail string, panicked bool)
 	put(w Write) (accepted bool, detail string, panicked bool)
 	deleteGraph(name string)
+	addIndex(graph, label, field string) (accepted bool, detail string, panicked bool)
+	// listIndices returns "label|field" of every index listed for the graph
+	listIndices(graph string) ([]string, error)
 	listGraphs() []string
 	// observe returns nil when the graph cannot be opened. light: the reduced
 	// observation used for graphs that no write of the case addresses
@@ -442,6 +487,42 @@ type universe struct {
 	full                         obs.Universe
 	hostV, hostE, hostVL, hostEL []string
 	targets                      map[string]bool // graphs addressed by a write
+	idx                          []string        // "label|field" of the addIndex writes of the case
+	midx                         map[string]map[string]bool // model: graph -> accepted "label|field"
+	skipKeys                     map[string]bool            // graph \x00 key: index-listing observations already reported as diverged
+}
+
+func idxKey(label, field []byte) string { return string(label) + "|" + string(field) }
+
+// indexObs adds the index listing of a graph to an observation: one count per index
+// of the case, and the rest of the listing (indices of earlier cases) as one value.
+func indexObs(be backend, graph string, u *universe, o obs.Observation) {
+	if len(u.idx) == 0 {
+		return
+	}
+	l, err := be.listIndices(graph)
+	if err != nil {
+		o["ListIndices"] = "error: " + err.Error()
+		return
+	}
+	cnt := map[string]int{}
+	mine := map[string]bool{}
+	for _, k := range u.idx {
+		mine[k] = true
+	}
+	var others []string
+	for _, k := range l {
+		if mine[k] {
+			cnt[k]++
+		} else {
+			others = append(others, k)
+		}
+	}
+	sort.Strings(others)
+	for _, k := range u.idx {
+		o["ListIndices["+k+"]"] = fmt.Sprint(cnt[k])
+	}
+	o["ListIndices[others]"] = fmt.Sprintf("%q", others)
 }
 
 // forGdbi returns the universes handed to obs.OfGraph/obs.OfModel: the main one
@@ -512,10 +593,15 @@ func universeOf(c Case) (*universe, []string) {
 	vids.add("ghost")
 	graphs.add(c.GA)
 	graphs.add(c.GB)
-	u := &universe{targets: map[string]bool{}}
+	u := &universe{targets: map[string]bool{}, midx: map[string]map[string]bool{}, skipKeys: map[string]bool{}}
 	for _, w := range c.Writes {
 		graphs.addWithTruncs(w.Graph)
 		u.targets[string(w.Graph)] = true
+		if w.Kind == "addIndex" {
+			u.idx = append(u.idx, idxKey(w.Elems[0].Label, w.Elems[0].ID))
+			hvl.addWithTruncs(w.Elems[0].Label)
+			continue
+		}
 		for _, e := range w.Elems {
 			if e.Edge {
 				he.addWithTruncs(e.ID)
@@ -550,7 +636,11 @@ type snapshot map[string]obs.Observation // graph name (or "") -> observation
 
 const listKey = "\x00ListGraphs" // pseudo graph holding the graph listing
 
-func takeSnapshot(be backend, graphs []string, u *universe) snapshot {
+// takeSnapshot observes the graph listing and every graph in play. With assume != nil the
+// graphs are not read: their observations are taken from assume (used before the first
+// write of a case without 0x00 probes, where the benign base is assumed to be what the
+// model says; C03 checks that).
+func takeSnapshot(be backend, graphs []string, u *universe, assume snapshot) snapshot {
 	s := snapshot{}
 	interest := map[string]bool{}
 	for _, g := range graphs {
@@ -573,11 +663,16 @@ func takeSnapshot(be backend, graphs []string, u *universe) snapshot {
 	lo["ListGraphs[others]"] = fmt.Sprintf("%q", others)
 	s[listKey] = lo
 	for _, g := range graphs {
+		if assume != nil {
+			s[g] = assume[g]
+			continue
+		}
 		o := be.observe(g, u, !u.targets[g])
 		if o == nil {
 			o = obs.Observation{"graph": "absent"}
 		} else {
 			o["graph"] = "present"
+			indexObs(be, g, u, o)
 		}
 		s[g] = o
 	}
@@ -604,6 +699,12 @@ func modelSnapshot(be backend, world map[string]*model.Graph, graphs []string, u
 		}
 		o := be.modelObs(mg, u, !u.targets[g])
 		o["graph"] = "present"
+		if len(u.idx) > 0 {
+			for _, k := range u.idx {
+				o["ListIndices["+k+"]"] = map[bool]string{true: "1", false: "0"}[u.midx[g][k]]
+			}
+			o["ListIndices[others]"] = "?" // unchanged by every write (carried from the real listing)
+		}
 		s[g] = o
 	}
 	return s
@@ -736,7 +837,20 @@ func runCase(t pbt.TB, c Case) {
 	if hasB {
 		mk(c.GB, b)
 	}
-	before := takeSnapshot(be, graphs, u)
+	nulProbes := false
+	for _, l := range [][]string{u.hostV, u.hostE, u.hostVL, u.hostEL, graphs} {
+		for _, x := range l {
+			if strings.IndexByte(x, 0) >= 0 {
+				nulProbes = true
+			}
+		}
+	}
+	var before snapshot
+	if nulProbes || len(u.idx) > 0 {
+		before = takeSnapshot(be, graphs, u, nil)
+	} else {
+		before = takeSnapshot(be, graphs, u, modelSnapshot(be, world, graphs, u, ""))
+	}
 	others := before[listKey]["ListGraphs[others]"]
 	// Reads that probe with an id/label containing 0x00 can match the keys of benign
 	// elements (prefix clash of the joined key) although nothing with that id was ever
@@ -749,6 +863,9 @@ func runCase(t pbt.TB, c Case) {
 			pbt.Class(t, "baseline-read-anomaly:"+obs.Method(d.key))
 			continue
 		}
+		if d.key == "ListIndices[others]" {
+			continue // indices of earlier cases: only its changes are judged
+		}
 		// the benign base is not what the model says: not this property's business
 		disc("base:"+obs.Method(d.key), "base state differs from the model before any hostile write: graph %q %q: stored=%q model=%q", d.graph, d.key, d.got, d.want)
 		return
@@ -758,6 +875,8 @@ func runCase(t pbt.TB, c Case) {
 		accepted bool
 	}
 	var outs []outcome
+	nulAccepted := false
+	var indexed [][3]string // accepted indices: graph, label, field
 	for wi, w := range c.Writes {
 		where := fmt.Sprintf("write %d %s", wi, w)
 		pbt.Class(t, "kind:"+w.Kind)
@@ -768,9 +887,12 @@ func runCase(t pbt.TB, c Case) {
 		modelBefore := modelSnapshot(be, world, graphs, u, others)
 		var accepted, panicked bool
 		var detail string
-		if w.Kind == "addGraph" {
+		switch w.Kind {
+		case "addGraph":
 			accepted, detail, panicked = be.addGraph(string(w.Graph))
-		} else {
+		case "addIndex":
+			accepted, detail, panicked = be.addIndex(string(w.Graph), string(w.Elems[0].Label), string(w.Elems[0].ID))
+		default:
 			accepted, detail, panicked = be.put(w)
 		}
 		if panicked {
@@ -796,6 +918,15 @@ func runCase(t pbt.TB, c Case) {
 				if !graphExisted {
 					world[string(w.Graph)] = &model.Graph{}
 				}
+			case "addIndex":
+				if graphExisted {
+					g := string(w.Graph)
+					if u.midx[g] == nil {
+						u.midx[g] = map[string]bool{}
+					}
+					u.midx[g][idxKey(w.Elems[0].Label, w.Elems[0].ID)] = true
+					indexed = append(indexed, [3]string{g, string(w.Elems[0].Label), string(w.Elems[0].ID)})
+				}
 			default:
 				if graphExisted {
 					upsert(world[string(w.Graph)], w.target().toModel())
@@ -813,7 +944,13 @@ func runCase(t pbt.TB, c Case) {
 			disc(signature(w, "unparseable-key-stored"), "%s was accepted, but the key it stores has an empty 7th component: kvgraph.EdgeKeyParse/SrcEdgeKeyParse/DstEdgeKeyParse index out of range on it inside a goroutine (listing or adjacency reads of this graph kill the process; see TestConfirmCrash)", where)
 			return // reading this graph back would kill the process
 		}
-		after := takeSnapshot(be, graphs, u)
+		if !accepted && w.Kind == "bulkAdd" && crashShape(w) {
+			// a bulk stream is flushed although an element failed: the crash-shaped key
+			// may be stored, reading the graph back could kill the process
+			pbt.Inconclusive(t, "refused-bulk-element-with-crash-shaped-key-not-read-back")
+			return
+		}
+		after := takeSnapshot(be, graphs, u, nil)
 		want := modelSnapshot(be, world, graphs, u, others)
 		// an observation the model says this write does not affect must be what it
 		// was before the write (this carries baseline read anomalies along)
@@ -821,11 +958,44 @@ func runCase(t pbt.TB, c Case) {
 			for k, v := range mo {
 				if pv, ok := prevReal[g][k]; ok && modelBefore[g][k] == v && modelBefore[g]["graph"] == mo["graph"] {
 					mo[k] = pv
+				} else if k == "ListIndices[others]" {
+					mo[k] = after[g][k] // a graph that did not exist before: nothing to compare with
 				}
 			}
 		}
+		if accepted {
+			hasNul := bytes.IndexByte(w.Graph, 0) >= 0
+			for _, e := range w.Elems {
+				for _, b := range [][]byte{e.ID, e.Label, e.From, e.To} {
+					hasNul = hasNul || bytes.IndexByte(b, 0) >= 0
+				}
+			}
+			nulAccepted = nulAccepted || hasNul
+		}
 		diffs := diffSnap(after, want)
 		prevReal = after
+		if len(u.skipKeys) > 0 {
+			kept := diffs[:0]
+			for _, d := range diffs {
+				if !u.skipKeys[d.graph+"\x00"+d.key] {
+					kept = append(kept, d)
+				}
+			}
+			diffs = kept
+		}
+		if !nulAccepted {
+			// reads that probe with a 0x00 id/label/name nothing accepted so far
+			// contains are outside the property (see the baseline anomalies above)
+			kept := diffs[:0]
+			for _, d := range diffs {
+				if strings.IndexByte(d.key, 0) >= 0 {
+					pbt.Class(t, "unjudged-nul-probe-of-never-accepted-id")
+					continue
+				}
+				kept = append(kept, d)
+			}
+			diffs = kept
+		}
 		if len(diffs) == 0 {
 			continue
 		}
@@ -848,6 +1018,27 @@ func runCase(t pbt.TB, c Case) {
 				symptom = "not-read-back-verbatim"
 			}
 			sig := signature(w, symptom)
+			if strings.HasPrefix(d.key, "ListIndices[") && d.key != "ListIndices[others]" && d.got != "0" {
+				// an index of this case listed for a graph it was not added to
+				for _, ix := range indexed {
+					if "ListIndices["+ix[1]+"|"+ix[2]+"]" == d.key && ix[0] != d.graph {
+						sig = "index-list:not-filtered-by-graph"
+					}
+				}
+			}
+			if w.Kind == "addIndex" && strings.HasPrefix(d.key, "ListIndices[") && d.graph != string(w.Graph) {
+				sig = "index-list:not-filtered-by-graph" // (possibly mangled) entry listed for another graph
+			}
+			if !accepted && (w.Kind == "addVertex" || w.Kind == "bulkAdd") && !strings.HasPrefix(sig, "label-named-label") {
+				// a refused value under an indexed field: the index decides what is accepted
+				for _, ix := range indexed {
+					if ix[0] == string(w.Graph) && ix[1] == string(w.target().Label) {
+						if v, ok := w.target().toModel().Field(ix[2]); ok {
+							sig = "indexed-value:" + model.Kind(v) + "-" + symptom
+						}
+					}
+				}
+			}
 			if seen[sig] {
 				continue
 			}
@@ -857,9 +1048,23 @@ func runCase(t pbt.TB, c Case) {
 			if gname == listKey {
 				gname = "(graph listing)"
 			}
-			if !disc(sig, "%s (accepted=%v %s): graph %q observation %q: stored=%s model=%s (%d differences in all)", where, accepted, clip(detail, 200), gname, clip(fmt.Sprintf("%+q", d.key), 200), clip(fmt.Sprintf("%+q", d.got), 600), clip(fmt.Sprintf("%+q", d.want), 600), len(diffs)) {
+			if !disc(sig, "%s (accepted=%v %s): graph %q observation %q: stored=%s model=%s (%d differences in all)", where, accepted, clip(strings.Join(strings.Fields(detail), " "), 300), gname, clip(fmt.Sprintf("%+q", d.key), 200), clip(fmt.Sprintf("%+q", d.got), 600), clip(fmt.Sprintf("%+q", d.want), 600), len(diffs)) {
 				continue
 			}
+		}
+		// the index listing is an observation of its own: a case whose only divergence
+		// is there goes on (the listing is then carried as it is)
+		onlyIndexListing := true
+		for _, d := range diffs {
+			if !strings.HasPrefix(d.key, "ListIndices[") {
+				onlyIndexListing = false
+			}
+		}
+		if onlyIndexListing {
+			for _, d := range diffs {
+				u.skipKeys[d.graph+"\x00"+d.key] = true
+			}
+			continue
 		}
 		return // state diverged from the model: stop judging this case
 	}
@@ -896,9 +1101,12 @@ func runCase(t pbt.TB, c Case) {
 			continue
 		}
 		var acc, pan bool
-		if nb.Kind == "addGraph" {
+		switch nb.Kind {
+		case "addGraph":
 			acc, _, pan = be.addGraph(string(nb.Graph))
-		} else {
+		case "addIndex":
+			acc, _, pan = be.addIndex(string(nb.Graph), string(nb.Elems[0].Label), string(nb.Elems[0].ID))
+		default:
 			acc, _, pan = be.put(nb)
 		}
 		if acc && !pan {
@@ -962,9 +1170,9 @@ func neighbour(w Write) (Write, bool) {
 		switch comp {
 		case "graph":
 			n.Graph = fix(n.Graph)
-		case "vertex-id", "edge-id":
+		case "vertex-id", "edge-id", "index-field":
 			t.ID = fix(t.ID)
-		case "label":
+		case "label", "index-label":
 			t.Label = fix(t.Label)
 		case "from":
 			t.From = fix(t.From)
@@ -1014,5 +1222,5 @@ func randomLevel(t *testing.T, level string, quickN, thoroughN int) {
 	})
 }
 
-func TestGdbiLevel(t *testing.T)   { randomLevel(t, "gdbi", 6000, 300000) }
-func TestServerLevel(t *testing.T) { randomLevel(t, "server", 2400, 100000) }
+func TestGdbiLevel(t *testing.T)   { randomLevel(t, "gdbi", 1600, 120000) }
+func TestServerLevel(t *testing.T) { randomLevel(t, "server", 560, 40000) }
